@@ -165,12 +165,12 @@ theorem nfor_tail {N : NumOps} {call : CallFn N} {ρ : ExtOracle N} {k : Nat} {e
     apply forLoop_rel
     · intro β2 h2 i s s' h
       have ha := h.allocBoth (.num i)
-      refine RRel.mono (le_extBoth (σ := s) (σ' := s')) ?_
+      refine RRel.mono (le_extBoth h) ?_
       rw [hn]
       have he3 : EnvOK cx (extBoth β2 s s') D
           { env with locals := (n'.name, (s.allocCell (.num i)).1) :: env.locals }
           { env' with locals := (n'.name, (s'.allocCell (.num i)).1) :: env'.locals } :=
-        ⟨he.va, ((he.mono h2).loc.mono le_extBoth).cons _ hw extBoth_new⟩
+        ⟨he.va, ((he.mono h2).loc.mono (le_extBoth h)).cons _ hw extBoth_new⟩
       exact (ihbody.2 N call ρ k _ _ _ _ _ hc ha he3).mapA fun _ _ _ _ ha => ha.shape
     · exact h
   · exact RRel.errS h
@@ -228,11 +228,11 @@ theorem SoundS.localFn {kind kind' name f f'} (hw : DName.wat name ∉ D) (hf : 
   simp only [execS]
   have h1 := hs.allocBoth .nil
   have he1 : LocOK cx (extBoth β σ σ') D ((name, (σ.allocCell .nil).1) :: env.locals)
-      ((name, (σ'.allocCell .nil).1) :: env'.locals) := (he.loc.mono le_extBoth).cons _ hw extBoth_new
+      ((name, (σ'.allocCell .nil).1) :: env'.locals)   := (he.loc.mono (le_extBoth hs)).cons _ hw extBoth_new
   have h2 := h1.allocClosure (c := ⟨f, (name, (σ.allocCell .nil).1) :: env.locals, []⟩)
     (c' := ⟨f', (name, (σ'.allocCell .nil).1) :: env'.locals, []⟩) ⟨rfl, D, hf, he1⟩
   rw [h2.1]
-  refine RRel.mono le_extBoth (RRel.ok (A := ACtlS cx D) ⟨he.va, he1⟩ ?_)
+  refine RRel.mono (le_extBoth hs) (RRel.ok (A := ACtlS cx D) ⟨he.va, he1⟩ ?_)
   exact h2.2.setCell extBoth_new _
 
 /-- a `repeat` iteration from its body (as an open block) and its condition -/
